@@ -96,6 +96,8 @@ func (r *returnsRunner) execute(cmd *cobra.Command, args []string) error {
 		AccountFilter:   predicate.ByName[*model.Account](r.accounts.Regex()),
 		CommodityFilter: predicate.ByName[*model.Commodity](r.commodities.Regex()),
 	}
+	// make sure that there is a day for each period end, as the weights command does
+	j.Days(partition.EndDates())
 	err = j.Build().Process(
 		journal.Sort(),
 		journal.ComputePrices(valuation),
